@@ -108,6 +108,7 @@ func init() {
 					Bounds: map[string]interface{}{"skeleton": "c01SrcD", "holes": 5}},
 				{Harness: "zzverif/zzh.ZZC01Methods", Desc: "pointer/value receiver methods, receiver overwrite and increment, nesting in if/for/switch/select/closure/defer/go, value variable, unannotated twin; annotations on T, N and the constructor list symbolic", Bounds: map[string]interface{}{"skeleton": "c01SrcMethods", "holes": 3}},
 				{Harness: "zzverif/zzh.ZZC01Init", Desc: "writes in package-level initialisers: before any function, after a constructor in the same file, in another file of the package (3 files)", Bounds: map[string]interface{}{"skeleton": "c01SrcInit{A,B,C}", "holes": 2}},
+				{Harness: "zzverif/zzh.ZZC01Shadow", Desc: "receiver overwrite vs. a block-local variable and a closure parameter that share the receiver name", Bounds: map[string]interface{}{"skeleton": "c01SrcShadow"}},
 				{Harness: "zzverif/zzh.ZZCrossImmCtor", Desc: "type in package d, uses in the importing package u (facts), incl. a function of u that shares the constructor's name", Bounds: map[string]interface{}{"skeleton": "crossSrc{D,U}", "holes": 4}},
 			},
 			Outside:     []string{"generics; promoted fields through embedding; parenthesised left-hand sides"},
